@@ -8,7 +8,7 @@ PATCH="$(readlink -f "$1")"; shift
 WT="/tmp/mut/run-$$"
 git -C /repo worktree add -q --detach "$WT" HEAD || exit 2
 trap 'git -C /repo worktree remove --force "$WT" >/dev/null 2>&1' EXIT
-git -C "$WT" apply "$PATCH" || { echo "patch does not apply"; exit 2; }
+git -C "$WT" apply "$PATCH" 2>/dev/null || git -C "$WT" apply --3way "$PATCH" 2>/dev/null || { echo "STALE: patch does not apply to the current tree"; exit 2; }
 ( cd "$WT" && GOFLAGS=-mod=mod GOPROXY=off go build ./... ) || { echo "mutant does not compile"; exit 2; }
 for P in "$@"; do
   OUT=$(VERIF_REPO="$WT" VERIF_EVIDENCE_DIR="$WT/.evidence" VERIF_REPLAY_DIR="$WT/.replays" "$VERIF/check.sh" "$P" "${MUT_TIER:-quick}" 2>&1); RC=$?
